@@ -992,8 +992,10 @@ func c33GenTrack(r *Rand, multi bool, k int) c33Track {
 	return t
 }
 
-func c33Gen(r *Rand, i int) c33Case {
-	c := c33Case{ID: r.U64(), Multi: r.Chance(3, 5), Seekable: r.Bool()}
+func c33Gen(r *Rand, i int) c33Case { return c33GenVariant(r, i, r.Chance(3, 5), r.Bool()) }
+
+func c33GenVariant(r *Rand, i int, multi, seekable bool) c33Case {
+	c := c33Case{ID: r.U64(), Multi: multi, Seekable: seekable}
 	n := 1
 	if c.Multi {
 		n = r.Range(1, 4)
@@ -1017,7 +1019,7 @@ func c33Gen(r *Rand, i int) c33Case {
 	if r.Chance(1, 8) {
 		nops = r.Range(12, 40)
 	}
-	big := i%40 == 7 // a few multi-page packets per run
+	big := i%18 == 7 // a few multi-page packets per run
 	for k := 0; k < nops; k++ {
 		switch {
 		case r.Chance(1, 15):
@@ -1211,12 +1213,28 @@ func c33TocRun(toc int) (V, Verdict) {
 }
 
 func init() {
-	Register(Spec[c33Case]{
-		ID: "C33", Suite: "write", CoqImports: []string{"Check.C33"},
-		CoqType: "string", CoqRun: "Check.C33.run",
-		Quick: 160, Thorough: 6000, Parallel: 8,
-		Corpus: c33Corpus, Gen: c33Gen, Run: c33Run, Coq: c33Coq, Shrink: c33Shrink,
-	})
+	for _, v := range []struct {
+		name            string
+		multi, seekable bool
+	}{{"splain", false, false}, {"sseek", false, true}, {"mplain", true, false}, {"mseek", true, true}} {
+		v := v
+		Register(Spec[c33Case]{
+			ID: "C33", Suite: v.name, CoqImports: []string{"Check.C33"},
+			CoqType: "string", CoqRun: "Check.C33.run",
+			Quick: 36, Thorough: 1500, Parallel: 8,
+			Corpus: func() []c33Case {
+				var out []c33Case
+				for _, c := range c33Corpus() {
+					if c.Multi == v.multi && c.Seekable == v.seekable {
+						out = append(out, c)
+					}
+				}
+				return out
+			},
+			Gen: func(r *Rand, i int) c33Case { return c33GenVariant(r, i, v.multi, v.seekable) },
+			Run: c33Run, Coq: c33Coq, Shrink: c33Shrink,
+		})
+	}
 	Register(Spec[c33Bytes]{
 		ID: "C33", Suite: "read", CoqImports: []string{"Check.C33"},
 		CoqType: "string", CoqRun: "Check.C33.run_read",
